@@ -6,8 +6,10 @@ import (
 	"os"
 
 	_ "verif/sim/props/c01"
+	_ "verif/sim/props/c03"
 	_ "verif/sim/props/c05"
 	_ "verif/sim/props/c11"
+	_ "verif/sim/props/c14"
 	_ "verif/sim/props/c19"
 )
 
